@@ -208,6 +208,7 @@ class Interp:
         s.add(*fs)
         s.add(*T.theory_axioms(fs))
         s.add(*T.sum_axioms(fs))
+        s.add(*T.ext_axioms(fs))
         return s.check() == z3.unsat
 
     def truth(self, st, v):
